@@ -5,8 +5,12 @@ p, x, ran = sys.argv[1], sys.argv[2], sys.argv[3]
 patch = None
 if '--patch' in sys.argv:
     patch = sys.argv[sys.argv.index('--patch') + 1]
-src = '/tmp/wt/%s/_out/%s' % (p, x)
-dst = '/verif/seeded/%s-%s' % (p, x)
+root = os.environ.get('WTROOT', '/tmp/wt2')
+name = x
+if '--as' in sys.argv:
+    name = sys.argv[sys.argv.index('--as') + 1]
+src = '%s/%s/_out/%s' % (root, p, x)
+dst = '/verif/seeded/%s-%s' % (p, name)
 os.makedirs(dst, exist_ok=True)
 if patch is None:
     shutil.copy(os.path.join(src, 'patch.diff'), os.path.join(dst, 'patch.diff'))
